@@ -11,6 +11,7 @@ import PyhamModel.Model.Nav
 import PyhamModel.Model.Iham
 import PyhamModel.Model.History
 import PyhamModel.Model.WF
+import PyhamModel.Model.Realises
 open Pyham
 
 /-! ### s-expressions -/
@@ -338,6 +339,16 @@ def runCase (e : SExp) : Array String :=
         let o := o.put "load" "ok"
         let o := o.put "wf" ((if H.wf then "1" else "0") ++ (if H.regExact then "1" else "0") ++ (if H.sizesExact then "1" else "0"))
         let o := emitLoad "" H o
+        -- the loaded family realises its history (C03), evaluated by the executable checker
+        let o := (findField "histories" fields).foldl (fun o h =>
+          match h with
+          | .list [t, l] =>
+            let sl := decSL l
+            let hid := match sl with | .grp _ hid _ _ => hid | _ => none
+            match H.tops.find? (·.1 == hid) with
+            | some p => o.put "real" (if realisesB (decTaxon t) sl p.2 then "1" else "0")
+            | none => o.put "real" "missing"
+          | _ => o) o
         let o := if want.contains "ann" then emitAnn H o else o
         let o := if want.contains "nav" then emitNav H o else o
         let o := if want.contains "profiles" then emitProfiles H o else o
